@@ -106,7 +106,7 @@ class Shape:
         return offset + amount
     @builtins.classmethod
     def make(klass, size):
-        return (klass.__name__ == 'Shape', size)
+        return (klass is Shape, size)
     @staticmethod
     def plain(first, second=2):
         return first - second
